@@ -4,26 +4,23 @@ import BadgerProofs.Lemmas.Sorted
 # C27 — WriteBatch applies every operation, later operations winning
 
 Buffer core of `BadgerModel/Batch.lean` (`Buf.add` = the tail of `Txn.modify`, `Buf.emit` = the
-order of `commitAndSend`: `pendingWrites` then `duplicateWrites`).
+order of `commitAndSend`: `duplicateWrites` then `pendingWrites`, since badger commit 2dbbdab).
 
 Reads are `newestLE` (the newest version `≤ ts` of a key); the memtable after a write stream `ws`
 serves exactly the reads of `ws.reverse ++ mem` (`newestLE_applyWrites`: the last write of a
 `(key, version)` wins), so "the database reflects the fold of the issued operations, last one
 per (key, version) winning" is `newestLE (applyWrites mem emitted) = newestLE (applyWrites mem issued)`.
 
-* `C27_spec_read` (unconditional): what the issued operations of one internal transaction mean
-  is `pick (pendingWrites entry) (duplicateWrites, latest first)` — i.e. the order
-  *duplicates first, then pending* is always right (`C27_fixed_order_last_wins`: the `fix:`).
-* `C27_segment_last_wins`: the code's order (pending first) is right under `Buf.NoClash`: no
-  `duplicateWrites` entry has, after version resolution, the same `(key, version)` as the
-  `pendingWrites` entry of its key. `C27_last_wins`: for any cut of the batch into internal
-  transactions (any split oracle, any commit timestamps).
-* `C27_last_wins_normal`: operations without explicit versions (Set / SetEntry / Delete — all a
-  normal-mode batch can issue except `DeleteAt`) never clash: no side condition.
-* `C27_managed_dup_counterexample`: the statement without the side condition is false
-  (finding F8: `SetEntryAt(k,v1,5); SetEntryAt(k,v2,7); SetEntryAt(k,v3,5); Flush`).
-* `C27_noClash_iff_history` (C27Hist.lean): the side condition in terms of the operation history;
-  `C27_commit_last_wins` (C27Db.lean): the same for one internal transaction of the `Db` model;
+* `C27_spec_read`: what the issued operations of one internal transaction mean is
+  `pick (pendingWrites entry) (duplicateWrites, latest first)`.
+* `C27_last_wins` / `C27_last_wins_all_splits`: **the** theorem — for every operation sequence
+  (explicit versions or not), every cut into internal transactions (split oracle) and every
+  commit timestamp, normal and managed mode, no side condition.
+* Historical (the order before commit 2dbbdab, `Buf.emitOld`: pending first — finding F8):
+  `C27_old_order_counterexample`, `C27_old_order_deleteAt_counterexample` (the statement was
+  false), `C27_old_order_last_wins_side` (it held exactly under `Buf.NoClash`),
+  `C27_noClash_iff_history` (C27Hist.lean: the side condition on the operation history).
+* `C27_commit_last_wins` (C27Db.lean): the same for one internal transaction of the `Db` model;
   `C27_normal_latest` (C27Normal.lean): normal mode in user terms (latest read = last operation).
 -/
 namespace Badger
@@ -241,12 +238,12 @@ theorem C27_spec_read {cts : Nat} {g : Ent → Ent} (hg : Resolves cts g) (b : B
 /-! ## one internal transaction -/
 
 theorem emit_read (g : Ent → Ent) (b : Buf) (k : Bytes) (ts : Nat) :
-    lw (b.emit.map g) k ts = pick (lw (b.dups.map g) k ts) (lw (b.pending.map g) k ts) := by
+    lw (b.emit.map g) k ts = pick (lw (b.pending.map g) k ts) (lw (b.dups.map g) k ts) := by
   unfold Buf.emit; rw [List.map_append, lw_append]
 
-theorem emitFixed_read (g : Ent → Ent) (b : Buf) (k : Bytes) (ts : Nat) :
-    lw (b.emitFixed.map g) k ts = pick (lw (b.pending.map g) k ts) (lw (b.dups.map g) k ts) := by
-  unfold Buf.emitFixed; rw [List.map_append, lw_append]
+theorem emitOld_read (g : Ent → Ent) (b : Buf) (k : Bytes) (ts : Nat) :
+    lw (b.emitOld.map g) k ts = pick (lw (b.dups.map g) k ts) (lw (b.pending.map g) k ts) := by
+  unfold Buf.emitOld; rw [List.map_append, lw_append]
 
 /-- a buffer filled from empty by the operations `ops` means `ops`, later operations first -/
 theorem buf_spec_read {cts : Nat} {g : Ent → Ent} (hg : Resolves cts g) (ops : List Ent) (k : Bytes) (ts : Nat) :
@@ -255,18 +252,20 @@ theorem buf_spec_read {cts : Nat} {g : Ent → Ent} (hg : Resolves cts g) (ops :
   rw [C27_spec_read hg {} Buf.empty_keysDistinct ops k ts]
   simp [lw_nil]
 
-/-- the intended order (duplicates first) writes what was issued, unconditionally; `g` is any
-    finalisation of the entries (`Resolves`). -/
-theorem C27_fixed_order_buf {cts : Nat} {g : Ent → Ent} (hg : Resolves cts g) (ops : List Ent) (k : Bytes) (ts : Nat) :
-    lw ((Buf.addAll {} ops).emitFixed.map g) k ts = lw (ops.map g) k ts := by
-  rw [emitFixed_read, buf_spec_read hg]
-
-/-- the code's order (`pendingWrites` first) writes what was issued when no duplicate collides
-    with the pending entry of its key. -/
-theorem C27_buf_last_wins {cts : Nat} {g : Ent → Ent} (hg : Resolves cts g) (ops : List Ent)
-    (h : (Buf.addAll {} ops).NoClash cts) (k : Bytes) (ts : Nat) :
+/-- **one internal transaction** (the order of `commitAndSend`: `duplicateWrites`, then
+    `pendingWrites`): what it sends to the write channel reads exactly like the operations it
+    received, applied one by one in issue order — no side condition. `g` is any finalisation
+    of the entries (`Resolves`: `Ent.atTs`, or `finEnt` of the `Db` model). -/
+theorem C27_buf_last_wins {cts : Nat} {g : Ent → Ent} (hg : Resolves cts g) (ops : List Ent) (k : Bytes) (ts : Nat) :
     lw ((Buf.addAll {} ops).emit.map g) k ts = lw (ops.map g) k ts := by
-  rw [emit_read, ← buf_spec_read hg ops k ts]
+  rw [emit_read, buf_spec_read hg]
+
+/-- the order before commit 2dbbdab (`pendingWrites` first) wrote what was issued only when no
+    duplicate collided with the pending entry of its key (historical). -/
+theorem C27_old_order_buf {cts : Nat} {g : Ent → Ent} (hg : Resolves cts g) (ops : List Ent)
+    (h : (Buf.addAll {} ops).NoClash cts) (k : Bytes) (ts : Nat) :
+    lw ((Buf.addAll {} ops).emitOld.map g) k ts = lw (ops.map g) k ts := by
+  rw [emitOld_read, ← buf_spec_read hg ops k ts]
   cases hD : lw ((Buf.addAll {} ops).dups.map g) k ts with
   | none => simp
   | some d' =>
@@ -281,13 +280,13 @@ theorem C27_buf_last_wins {cts : Nat} {g : Ent → Ent} (hg : Resolves cts g) (o
       rw [hg.ver, hg.ver]
       exact h d hd p hp ((hg.key d).symm.trans (hdk.trans (hpk.symm.trans (hg.key p))))
 
-theorem C27_fixed_order_segment (s : Seg) (k : Bytes) (ts : Nat) :
-    lw s.emittedFixed k ts = lw s.issued k ts :=
-  C27_fixed_order_buf (atTs_resolves s.cts) s.ops k ts
-
-theorem C27_segment_last_wins (s : Seg) (h : s.NoClash) (k : Bytes) (ts : Nat) :
+theorem C27_segment_last_wins (s : Seg) (k : Bytes) (ts : Nat) :
     lw s.emitted k ts = lw s.issued k ts :=
-  C27_buf_last_wins (atTs_resolves s.cts) s.ops h k ts
+  C27_buf_last_wins (atTs_resolves s.cts) s.ops k ts
+
+theorem C27_old_order_segment (s : Seg) (h : s.NoClash) (k : Bytes) (ts : Nat) :
+    lw s.emittedOld k ts = lw s.issued k ts :=
+  C27_old_order_buf (atTs_resolves s.cts) s.ops h k ts
 
 /-! ## the whole batch -/
 
@@ -298,28 +297,26 @@ theorem batch_read_congr (f g : Seg → List Ent) (segs : List Seg) (mem : List 
   congr 1
   exact lw_flatten_congr f g segs k ts h
 
-/-- **C27, any cut into internal transactions**: whatever the split points and commit
-    timestamps, if no internal transaction has a clash, every read of the memtable after the
-    batch equals the read after applying the issued operations one by one in issue order. -/
-theorem C27_last_wins (segs : List Seg) (h : ∀ s ∈ segs, s.NoClash) (mem : List Ent) (k : Bytes) (ts : Nat) :
+/-- **C27**: whatever the cut of the batch into internal transactions (split points, commit
+    timestamps), whatever the operations (explicit versions or not, repeated (key, version)
+    pairs in any pattern), every read of the memtable after the batch equals the read after
+    applying the issued operations one by one in issue order: the last operation on a
+    (key, version) wins. -/
+theorem C27_last_wins (segs : List Seg) (mem : List Ent) (k : Bytes) (ts : Nat) :
     newestLE (applyWrites mem (batchEmitted segs)) k ts = newestLE (applyWrites mem (batchIssued segs)) k ts :=
-  batch_read_congr Seg.emitted Seg.issued segs mem k ts (fun s hs => C27_segment_last_wins s (h s hs) k ts)
-
-/-- the `fix:` (emit `duplicateWrites` before `pendingWrites`) needs no side condition -/
-theorem C27_fixed_order_last_wins (segs : List Seg) (mem : List Ent) (k : Bytes) (ts : Nat) :
-    newestLE (applyWrites mem (batchEmittedFixed segs)) k ts = newestLE (applyWrites mem (batchIssued segs)) k ts :=
-  batch_read_congr Seg.emittedFixed Seg.issued segs mem k ts (fun s _ => C27_fixed_order_segment s k ts)
+  batch_read_congr Seg.emitted Seg.issued segs mem k ts (fun s _ => C27_segment_last_wins s k ts)
 
 /-- the batch against a split oracle (`full i`: the i-th operation found the transaction full) -/
-def C27_statement (managed : Bool) (side : List Seg → Prop) : Prop :=
+def C27_statement (managed : Bool) : Prop :=
   ∀ (ts0 : Nat) (full : Nat → Bool) (ops mem : List Ent) (k : Bytes) (ts : Nat),
-    side (assignTs managed ts0 (segments full 0 [] ops)) →
     newestLE (batchRun managed ts0 full ops mem) k ts =
       newestLE (applyWrites mem (batchIssued (assignTs managed ts0 (segments full 0 [] ops)))) k ts
 
-/-- managed (and normal) mode, all split oracles, under the exact side condition -/
-theorem C27_last_wins_managed (managed : Bool) : C27_statement managed (fun segs => ∀ s ∈ segs, s.NoClash) :=
-  fun _ _ _ mem k ts h => C27_last_wins _ h mem k ts
+/-- **C27, all operation sequences, all split oracles**, normal mode (`managed = false`: Set,
+    SetEntry, Delete and also DeleteAt) and managed mode (`NewWriteBatchAt`,
+    `NewManagedWriteBatch`: SetEntryAt, DeleteAt, …): no side condition. -/
+theorem C27_last_wins_all_splits (managed : Bool) : C27_statement managed :=
+  fun _ _ _ mem k ts => C27_last_wins _ mem k ts
 
 /-- the segmentation loses nothing and keeps the issue order -/
 theorem C27_segments_flatten (full : Nat → Bool) (i : Nat) (cur ops : List Ent) :
@@ -342,7 +339,52 @@ theorem assignTs_ops (managed : Bool) (ts0 : Nat) (l : List (List Ent)) :
     · simp [ih]
     · split <;> simp [ih]
 
-/-! ## normal mode: no explicit versions, no clash -/
+theorem segments_mem (full : Nat → Bool) (i : Nat) (cur ops : List Ent) :
+    ∀ seg ∈ segments full i cur ops, ∀ e ∈ seg, e ∈ cur ∨ e ∈ ops := by
+  induction ops generalizing i cur with
+  | nil => intro seg hs e he; simp [segments] at hs; subst hs; exact .inl he
+  | cons x xs ih =>
+    intro seg hs e he
+    unfold segments at hs
+    split at hs
+    · rcases List.mem_cons.mp hs with rfl | hs
+      · exact .inl he
+      · rcases ih _ _ seg hs e he with h | h
+        · rw [List.mem_singleton] at h; subst h; exact .inr List.mem_cons_self
+        · exact .inr (List.mem_cons_of_mem _ h)
+    · rcases ih _ _ seg hs e he with h | h
+      · rcases List.mem_append.mp h with h | h
+        · exact .inl h
+        · rw [List.mem_singleton] at h; subst h; exact .inr List.mem_cons_self
+      · exact .inr (List.mem_cons_of_mem _ h)
+
+/-- operations without explicit versions stay so in every internal transaction -/
+theorem C27_normal_side (ts0 : Nat) (full : Nat → Bool) (ops : List Ent) (h0 : ∀ e ∈ ops, e.ver = 0) :
+    ∀ s ∈ assignTs false ts0 (segments full 0 [] ops), ∀ e ∈ s.ops, e.ver = 0 := by
+  intro s hs e he
+  have hm : s.ops ∈ (assignTs false ts0 (segments full 0 [] ops)).map Seg.ops := List.mem_map_of_mem hs
+  rw [assignTs_ops] at hm
+  rcases segments_mem full 0 [] ops s.ops hm e he with h | h
+  · cases h
+  · exact h0 e h
+
+/-! ## the order before commit 2dbbdab (finding F8, historical) -/
+
+theorem C27_old_order_last_wins (segs : List Seg) (h : ∀ s ∈ segs, s.NoClash) (mem : List Ent) (k : Bytes) (ts : Nat) :
+    newestLE (applyWrites mem (batchEmittedOld segs)) k ts = newestLE (applyWrites mem (batchIssued segs)) k ts :=
+  batch_read_congr Seg.emittedOld Seg.issued segs mem k ts (fun s hs => C27_old_order_segment s (h s hs) k ts)
+
+def C27_oldStatement (managed : Bool) (side : List Seg → Prop) : Prop :=
+  ∀ (ts0 : Nat) (full : Nat → Bool) (ops mem : List Ent) (k : Bytes) (ts : Nat),
+    side (assignTs managed ts0 (segments full 0 [] ops)) →
+    newestLE (batchRunOld managed ts0 full ops mem) k ts =
+      newestLE (applyWrites mem (batchIssued (assignTs managed ts0 (segments full 0 [] ops)))) k ts
+
+/-- the old order was right exactly under the side condition `Seg.NoClash`
+    (`C27_noClash_iff_history` in C27Hist.lean spells it out on the operation history) -/
+theorem C27_old_order_last_wins_side (managed : Bool) :
+    C27_oldStatement managed (fun segs => ∀ s ∈ segs, s.NoClash) :=
+  fun _ _ _ mem k ts h => C27_old_order_last_wins _ h mem k ts
 
 theorem addAll_no_dups {b : Buf} {es : List Ent} (hb : ∀ p ∈ b.pending, p.ver = 0) (hd : b.dups = [])
     (he : ∀ e ∈ es, e.ver = 0) : (b.addAll es).dups = [] := by
@@ -366,46 +408,15 @@ theorem addAll_no_dups {b : Buf} {es : List Ent} (hb : ∀ p ∈ b.pending, p.ve
         simp [this, hev, hd]
     · exact fun x hx => he x (List.mem_cons_of_mem _ hx)
 
-theorem segments_mem (full : Nat → Bool) (i : Nat) (cur ops : List Ent) :
-    ∀ seg ∈ segments full i cur ops, ∀ e ∈ seg, e ∈ cur ∨ e ∈ ops := by
-  induction ops generalizing i cur with
-  | nil => intro seg hs e he; simp [segments] at hs; subst hs; exact .inl he
-  | cons x xs ih =>
-    intro seg hs e he
-    unfold segments at hs
-    split at hs
-    · rcases List.mem_cons.mp hs with rfl | hs
-      · exact .inl he
-      · rcases ih _ _ seg hs e he with h | h
-        · rw [List.mem_singleton] at h; subst h; exact .inr List.mem_cons_self
-        · exact .inr (List.mem_cons_of_mem _ h)
-    · rcases ih _ _ seg hs e he with h | h
-      · rcases List.mem_append.mp h with h | h
-        · exact .inl h
-        · rw [List.mem_singleton] at h; subst h; exact .inr List.mem_cons_self
-      · exact .inr (List.mem_cons_of_mem _ h)
-
-/-- **C27, normal mode** (`NewWriteBatch` with Set / SetEntry / Delete): for every operation
-    sequence and every split oracle, no side condition. -/
-theorem C27_last_wins_normal : C27_statement false (fun segs => ∀ s ∈ segs, ∀ e ∈ s.ops, e.ver = 0) := by
+/-- without explicit versions `duplicateWrites` stays empty: the old order was right there too -/
+theorem C27_old_order_last_wins_normal :
+    C27_oldStatement false (fun segs => ∀ s ∈ segs, ∀ e ∈ s.ops, e.ver = 0) := by
   intro ts0 full ops mem k ts h
-  apply C27_last_wins
+  apply C27_old_order_last_wins
   intro s hs
   unfold Seg.NoClash Buf.NoClash
   rw [addAll_no_dups (b := {}) (by simp) rfl (h s hs)]
   simp
-
-/-- the hypothesis of `C27_last_wins_normal` is met as soon as the operations carry no version -/
-theorem C27_normal_side (ts0 : Nat) (full : Nat → Bool) (ops : List Ent) (h0 : ∀ e ∈ ops, e.ver = 0) :
-    ∀ s ∈ assignTs false ts0 (segments full 0 [] ops), ∀ e ∈ s.ops, e.ver = 0 := by
-  intro s hs e he
-  have hm : s.ops ∈ (assignTs false ts0 (segments full 0 [] ops)).map Seg.ops := List.mem_map_of_mem hs
-  rw [assignTs_ops] at hm
-  rcases segments_mem full 0 [] ops s.ops hm e he with h | h
-  · cases h
-  · exact h0 e h
-
-/-! ## finding F8: the statement without the side condition is false -/
 
 def f8Key : Bytes := [0x6b]
 /-- `SetEntryAt(k,"v1",5); SetEntryAt(k,"v2",7); SetEntryAt(k,"v3",5)` -/
@@ -414,32 +425,38 @@ def f8Ops : List Ent :=
     { key := f8Key, ver := 7, emeta := 0, umeta := 0, exp := 0, val := [0x76, 0x32] },
     { key := f8Key, ver := 5, emeta := 0, umeta := 0, exp := 0, val := [0x76, 0x33] } ]
 
-/-- the read at version 5 returns the FIRST write ("v1"), the specification says "v3" -/
-example : (newestLE (batchRun true 0 (fun _ => false) f8Ops []) f8Key 5).map (·.val) = some [0x76, 0x31] := by decide
+/-- today the read at version 5 returns the last write ("v3") … -/
+example : (newestLE (batchRun true 0 (fun _ => false) f8Ops []) f8Key 5).map (·.val) = some [0x76, 0x33] := by decide
+/-- … with the old order it returned the FIRST write ("v1") -/
+example : (newestLE (batchRunOld true 0 (fun _ => false) f8Ops []) f8Key 5).map (·.val) = some [0x76, 0x31] := by decide
 example : (newestLE (applyWrites [] (batchIssued (assignTs true 0 (segments (fun _ => false) 0 [] f8Ops)))) f8Key 5).map (·.val)
     = some [0x76, 0x33] := by decide
 
-theorem C27_managed_dup_counterexample : ¬ C27_statement true (fun _ => True) := by
+/-- finding F8 (fixed by commit 2dbbdab): with `pendingWrites` emitted first the statement is
+    false without the side condition. -/
+theorem C27_old_order_counterexample : ¬ C27_oldStatement true (fun _ => True) := by
   intro h
   have := h 0 (fun _ => false) f8Ops [] f8Key 5 trivial
   revert this
   decide
 
 /-- the same mechanism in a normal batch, through `DeleteAt` (which has no mode check):
-    `Set(k,"v1"); DeleteAt(k,9); Set(k,"v3")` — the commit version of `k` reads "v1". -/
+    `Set(k,"v1"); DeleteAt(k,9); Set(k,"v3")` — with the old order the commit version of `k` read "v1". -/
 def f8NormalOps : List Ent :=
   [ { key := f8Key, ver := 0, emeta := 0, umeta := 0, exp := 0, val := [0x76, 0x31] },
     delEnt f8Key 9,
     { key := f8Key, ver := 0, emeta := 0, umeta := 0, exp := 0, val := [0x76, 0x33] } ]
 
-theorem C27_normal_deleteAt_counterexample : ¬ C27_statement false (fun _ => True) := by
+theorem C27_old_order_deleteAt_counterexample : ¬ C27_oldStatement false (fun _ => True) := by
   intro h
   have := h 1 (fun _ => false) f8NormalOps [] f8Key 1 trivial
   revert this
   decide
 
--- non-vacuity: a managed batch with an A-B-A-C version pattern (harmless: the repeated version is
--- not the key's last one) cut into two internal transactions satisfies the side condition
+example : (newestLE (batchRun false 1 (fun _ => false) f8NormalOps []) f8Key 1).map (·.val) = some [0x76, 0x33] := by decide
+
+-- non-vacuity of the old side condition: A-B-A-C (the repeated version is not the key's last
+-- one) cut into two internal transactions satisfies it, A-B-A does not
 example : ∀ s ∈ assignTs true 4 (segments (fun i => i == 2) 0 []
     (f8Ops ++ [{ key := f8Key, ver := 9, emeta := 0, umeta := 0, exp := 0, val := [] }])), s.NoClash := by decide
 example : ¬ (∀ s ∈ assignTs true 0 (segments (fun _ => false) 0 [] f8Ops), s.NoClash) := by decide
